@@ -120,3 +120,16 @@ pub fn control_n1_write_before_validate(d: &mut Dev, name: &str) -> Result<(), E
     ctl_validate(name)?;
     Ok(())
 }
+
+// ---- C11
+/// R11.2 control: a raw device write with no seek in front of it
+pub fn control_r11_2_write_without_seek(fs: &CtlFs, buf: &[u8]) -> Result<usize, DevErr> {
+    let mut d = fs.disk.borrow_mut();
+    Write::write(&mut *d, buf)
+}
+/// R11.1 control: a raw device write positioned by an arbitrary caller-supplied offset
+pub fn control_r11_1_unclassified_offset(fs: &CtlFs, at: u64, buf: &[u8]) -> Result<usize, DevErr> {
+    let mut d = fs.disk.borrow_mut();
+    Seek::seek(&mut *d, SeekFrom::Start(at))?;
+    Write::write(&mut *d, buf)
+}
